@@ -87,6 +87,20 @@ CHECKS.append(
      "note": "Trusted: TLC, the tokeniser (tab/;/=/: splitting, int/decimal literal recognition), construction of CopyNumArray objects and .cns/.cnr files from the encoded "
              "rows, math.log2. P-layer is order-free; BED label column, VCF GT/GQ/CNQ/PROBES/FOLD_CHANGE, CIPOS/CIEND (--cnr) are A-layer only. Premises: one naming style per "
              "table, 0<=start<end, exact rounding ties excluded, vcf needs an integer probes column, input files non-empty and sorted."})
+CHECKS.append(
+    {"id": "C07", "level": "model_checking",
+     "technique": "TLA+ spec (Ranges.tla over Intervals.tla) + TLC exhaustive small scopes replayed into skgenome + TLC trace validation of random runs",
+     "design_ref": "DESIGN.md section 8 C07, 13",
+     "text": "TLC enumerates every (table, query ranges, operation variant) of the small scopes for by_ranges / in_range / in_ranges / intersection / iter_ranges_of / "
+             "into_ranges (modes outer/inner/trim, keep_empty on/off, start/end None, chromosome given/None/absent, default and filtered row index), checks the modelled "
+             "algorithm (A-layer: by_shared_chroms incl. the single-chromosome shortcut, the _irange_simple/_irange_nested switch with numpy's binary search, index-label "
+             "slices, summary selection) against the statement (P-layer: exactly the overlapping / contained / clipped rows per query in table order; one default / value / "
+             "summary per query) and that the binary-search path is only taken where it equals the mask; every enumerated state is replayed into the real skgenome code whose "
+             "output TLC judges against the P-layer; random large tables are judged the same way.",
+     "note": "Trusted: TLC, the harness projection DataFrame/Series <-> TLA+ tuples and the cell-value encoding (floats on the grid k/4 as integers), JSON encoding. Premise: "
+             "sorted positive-width rows and ranges, coordinates >= 0, distinct index labels, chromosome=None only on single-chromosome tables. Not claimed: the default summary "
+             "of an integer column (the statement names none); iter_ranges_of(mode='trim') is judged as 'same values as outer'. Thorough: the <=2x<=3 over 0..6 scope is "
+             "design-checked in full and replayed one VERIF_SEED-selected 1/8 shard at a time."})
 
 _ALL = [f"C{n:02d}" for n in range(1, 21)]
 _claimed = {c["id"] for c in CHECKS}
